@@ -702,7 +702,7 @@ func runC18(r *rep.R) {
 	if thorough(r) {
 		D = 5
 	}
-	r.SetRule(fmt.Sprintf("a case is one history of operations on one connection; all histories of length <= %d over 18 operation kinds (session opens succeeding / failing at the Open Session status, RAKP 2 and RAKP 4 checks / with discovery / with no supported suite; commands succeeding, failing with a code, failing on body decode, retried once or twice, retried after garbage, losing the reply, expiring the context, failing to serialise; closes succeeding and failing), a 60-step structured history with each kind inserted at each position, and DialV2/transport-close histories over UDP loopback; the deltas of every bmc_* counter and gauge read from prometheus.DefaultGatherer must equal an accounting of what the harness observed (calls made, errors returned, transmissions, valid responses delivered with their codes, opens and closes)", D))
+	r.SetRule(fmt.Sprintf("a case is one history of operations on one connection; all histories %s over 22 operation kinds (session opens succeeding / failing at the Open Session status, RAKP 2 and RAKP 4 checks / with discovery / with no supported suite; commands succeeding, failing with a code, failing on body decode, retried once or twice, retried after garbage, losing the reply, expiring the context, failing to serialise; closes succeeding and failing), a 60-step structured history with each kind inserted at each position, and DialV2/transport-close histories over UDP loopback; the deltas of every bmc_* counter and gauge read from prometheus.DefaultGatherer must equal an accounting of what the harness observed (calls made, errors returned, transmissions, valid responses delivered with their codes, opens and closes)", map[bool]string{false: "of length <= 3", true: "of length <= 4, and all of length 5 that begin with a session open of any kind,"}[D == 5]))
 	var idx int64
 	do := func(c c18Case) {
 		idx++
@@ -761,6 +761,12 @@ func runC18(r *rep.R) {
 			do(c18Case{Ops: append([]int{}, cur...)})
 		}
 		if len(cur) == D {
+			return
+		}
+		// the fifth step only behind a session open of some kind (a third of the
+		// depth-5 histories, and the ones in which later steps can depend on
+		// earlier ones): the full depth-5 space took 18 minutes on 16 cores
+		if len(cur) == 4 && !(cur[0] <= kNSNoSuite || cur[0] == kNSFailAfterHandshake) {
 			return
 		}
 		for o := 0; o < kNumOps; o++ {
